@@ -36,6 +36,14 @@ def setup():
         return _orig["check_array"](a, **kw)
 
     iv.check_array = check_array
+    # numpy predicates that reject object dtype (isclose / isfinite / isnan) get proxy-aware versions in the post-processing modules
+    import fairlearn.postprocessing._tradeoff_curve_utilities as tcu
+    import fairlearn.postprocessing._threshold_optimizer as tom
+    import fairlearn.postprocessing._interpolated_thresholder as itm
+
+    for mod in (tcu, tom, itm):
+        if not isinstance(mod.np, stubs.NpStub):
+            mod.np = stubs.NpStub(np)
 
 
 from sklearn.base import BaseEstimator, ClassifierMixin  # noqa: E402
